@@ -573,8 +573,12 @@ def list_comp(ex, node):
         ex.st.pc.append(z3.And(i >= 0, i < n))
         mark = len(ex.st.pc)
         ex.assign(g.target, elem(i), node)
-        if g.ifs:
-            ex.limit('filtering comprehension over a symbolic sequence', node)
+        for cnd in g.ifs:
+            # a filter that is decided by the element KIND alone (e.g. isinstance(x, tuple) over a list of tuples)
+            # keeps every element; any other filter is outside the model
+            tv = ex.ev(cnd)
+            if not (isinstance(tv, VBool) and tv.concrete() is True):
+                ex.limit('filtering comprehension over a symbolic sequence', node)
         v = ex.ev(node.elt)
         if not ex.is_unresolved(v):
             v = ex.res(v)
@@ -1691,6 +1695,15 @@ def _frozenset(ex, fn, args, kw, node):
         return VPy(frozenset())
     items = ex.iter_concrete(args[0], node)
     if items is None:
+        a0 = ex.res(args[0])
+        c0 = ex.cell(a0) if isinstance(a0, VPtr) else None
+        if isinstance(c0, ListCell) and c0.seq is not None and c0.kind in ('str', 'int'):
+            # set(list): the set of the list's elements (characteristic array defined by membership in the sequence)
+            es = kind_sort(c0.kind)
+            arr = z3.Const(ex.fresh_name('setof'), z3.ArraySort(es, z3.BoolSort()))
+            x = z3.Const(ex.fresh_name('x'), es)
+            ex.assume(z3.ForAll([x], arr[x] == z3.Contains(c0.seq, z3.Unit(x))))
+            return ex.alloc(SetCell(c0.kind, arr))
         ex.limit('set() of a symbolic iterable', node)
     vals = []
     for it in items:
@@ -1764,3 +1777,15 @@ def _os_join(ex, fn, args, kw, node):
     r = z3.String(ex.fresh_name('joined_path'))
     ex.assume(z3.SuffixOf(parts[-1].t, r))
     return VStr(r)
+
+
+@builtin('dict.copy')
+def _dcopy(ex, fn, args, kw, node):
+    """dict.copy(): a new dictionary object with the same entries (shallow)."""
+    p = fn.self_val
+    c = ex.cell(p)
+    if isinstance(c, DictCell):
+        return ex.alloc(DictCell(dict(c.items)))
+    if isinstance(c, MapCell):
+        return ex.alloc(MapCell(c.kkind, c.vkind, c.dom, c.vals, list(c.mat), c.vspec, c.order))
+    ex.limit('copy() of this dictionary', node)
